@@ -102,6 +102,8 @@ def run(ctx):
     ctx.rule("every body of <= 2 (quick) / 3 (thorough) markup atoms out of 43 (fences, roles, directives, links, emphasis and "
              "code runs, table rows, headings, lists, multi-byte text, unterminated variants, dash lines) and every body "
              "of 3 / 4 atoms whose inner atoms are space / line break, as a plain comment and as a @param description, "
+             "plus the multi-line family (first line = unterminated opener combined with a line-final closed inline span, "
+             "line separator, following line), "
              "x {Markdown, MyST, reStructuredText} x {no cursor, cursor at the end}: the items returned by "
              "emmylua_parser_desc::parse are recorded and judged by TLC with the predicates NoPanic / InBounds / Sorted; "
              "non-trivial = >= 2 atoms and at least one item returned")
